@@ -1,2 +1,75 @@
-From MMD.lib Require Import Bytes.
-Theorem placeholder_c19 : True. Proof. exact I. Qed.
+(* C19  DString operations behave like the obvious string model.
+   Theorem statements only; proofs are in proofs/DStringProofs.v. *)
+From Coq Require Import Lia.
+From MMD.lib Require Import Bytes BytesFacts.
+From MMD.model Require Import DStringModel DStringSpec.
+From MMD.proofs Require Import DStringProofs.
+Local Open Scope N_scope.
+
+(* One operation, from ANY state satisfying the invariant (not only reachable ones), with ANY
+   size_t arguments: the C-level model returns normally (no out-of-bounds access, no exhausted
+   loop fuel), re-establishes the invariant and computes exactly what the ideal string computes. *)
+Theorem dstring_step_refines_ideal :
+  forall fill s c j o, View s c j -> op_ok o = true -> fits c o ->
+  exists s' j', step fill s o = Ok (s', snd (sp_step c o)) /\ View s' (fst (sp_step c o)) j'.
+Proof. exact step_refines. Qed.
+Print Assumptions dstring_step_refines_ideal.
+
+(* Every finite history from d_string_new *)
+Theorem dstring_history_refines_ideal :
+  forall fill p ops, nonul p = true -> Nlen p + 1 <= BIG -> hist_ok p ops ->
+  exists s0 j0 s' j',
+    ds_new fill p = Ok s0 /\ View s0 p j0 /\
+    run_model fill s0 ops = Ok (s', snd (run_spec p ops)) /\
+    View s' (fst (run_spec p ops)) j'.
+Proof.
+  intros fill p ops Hp Hs Hh.
+  destruct (new_ok fill p Hp Hs) as (s0 & j0 & Hn & Hv).
+  destruct (run_refines fill ops s0 p j0 Hv Hh) as (s' & j' & Hr & Hv').
+  exists s0, j0, s', j'. auto.
+Qed.
+Print Assumptions dstring_history_refines_ideal.
+
+(* what the invariant says, in the words of the property: content = ideal string, recorded
+   length = content length, NUL-terminated, capacity larger than the length *)
+Theorem dstring_inv_meaning :
+  forall s c j, View s c j ->
+  content s = c /\ len s = Nlen c /\ nth_error (raw s) (N.to_nat (len s)) = Some 0 /\
+  len s < cap s /\ cap s = Nlen (raw s) /\ nonul (content s) = true.
+Proof.
+  intros s c j Hv. pose proof (view_content s c j Hv) as Hc. pose proof Hv as (_ & Hl & Hn & Hcap & _).
+  repeat split; try assumption.
+  - exact (view_nul s c j Hv).
+  - exact (view_len_lt_cap s c j Hv).
+  - rewrite Hc; exact Hn.
+Qed.
+Print Assumptions dstring_inv_meaning.
+
+(* no out-of-bounds access and no non-termination in any well-formed history (C01 share) *)
+Theorem dstring_no_oob_no_hang :
+  forall fill p ops e, nonul p = true -> Nlen p + 1 <= BIG -> hist_ok p ops ->
+  ds_new fill p <> Err e /\
+  forall s0, ds_new fill p = Ok s0 -> run_model fill s0 ops <> Err e.
+Proof.
+  intros fill p ops e Hp Hs Hh.
+  destruct (dstring_history_refines_ideal fill p ops Hp Hs Hh) as (s0 & j0 & s' & j' & Hn & _ & Hr & _).
+  split; [rewrite Hn; discriminate|].
+  intros s1 H1. rewrite Hn in H1. injection H1 as <-. rewrite Hr. discriminate.
+Qed.
+Print Assumptions dstring_no_oob_no_hang.
+
+(* ---- the hypotheses are satisfiable: a state at the growth boundary len = 1023, cap = 1024,
+   and a history that crosses it and uses the sentinel / out-of-range arguments *)
+Example boundary_state :
+  exists s j, ds_new 190 (repeat 97 1023) = Ok s /\ View s (repeat 97 1023) j /\ len s = 1023 /\ cap s = 1024.
+Proof.
+  destruct (new_ok 190 (repeat 97 1023) eq_refl) as (s & j & Hn & Hv).
+  - vm_compute. discriminate.
+  - exists s, j. split; [exact Hn|]. split; [exact Hv|].
+    vm_compute in Hn. injection Hn as <-. split; reflexivity.
+Qed.
+
+Example boundary_history :
+  hist_ok (repeat 97 1023)
+    [OAppendC 98; OErase 2 (SIZE_MAX - 1); OSubstr SIZE_MAX 1; OReplace 0 1 [97; 97] []; OInsert SIZE_MAX [99]].
+Proof. cbn [hist_ok]. repeat split; vm_compute; try reflexivity; try discriminate. Qed.
